@@ -37,10 +37,15 @@ def arr(x):
 def build(c):
     n = c["natoms"]
     atoms = Atoms(c["symbols"], positions=arr(c["positions"]))
-    atoms.set_masses([fl(m) for m in c["masses"]])
+    late = c.get("late_masses")   # None | "before_power" | "after_power": masses changed after construction + update_masses()
+    if not late:
+        atoms.set_masses([fl(m) for m in c["masses"]])
     atoms.calc = Prescribed(arr(c["forces"]))
     delta = arr(c["delta"]) if isinstance(c["delta"], list) else fl(c["delta"])
     sim = ForceBias(atoms, delta, temperature=fl(c["T"]), seed=c.get("seed", 1), logfile=None)
+    if late == "before_power":
+        atoms.set_masses([fl(m) for m in c["masses"]])
+        sim.update_masses()
     p = c["power"]
     if isinstance(p, dict):
         sim.masses_scaling_power = {k: fl(v) for k, v in p.items()}
@@ -48,6 +53,9 @@ def build(c):
         sim.masses_scaling_power = arr(p)
     else:
         sim.masses_scaling_power = fl(p)
+    if late == "after_power":
+        atoms.set_masses([fl(m) for m in c["masses"]])
+        sim.update_masses()
     assert len(atoms) == n
     return atoms, sim
 
